@@ -77,6 +77,8 @@ def wl_pipeline(ctx, config):
         for bit in ((it * 5) % 256, (it * 5 + 1) % 256, (it * 5 + 2) % 256, (it * 5 + 3) % 256, (it * 5 + 4) % 256, 255 - it % 32):
             rf = rs[0] ^ (1 << bit)
             if 0 < rf < n: bads.append(("r_bitflip", rf, rs[1], Y, Yo))
+        for nm, rv in (("r_plus_p_minus_n", rs[0] + (p - n)), ("r_minus_p_minus_n", rs[0] - (p - n)), ("r_negated", n - rs[0])):
+            if 0 < rv < n: bads.append((nm, rv, rs[1], Y, Yo))
         for cls, rr, ss, Yb, Ybo in bads:
             so = ctx.call("sig_parse_compact", b32(rr) + b32(ss), config=config)
             if so is None or Ybo is None: continue
